@@ -256,6 +256,106 @@ Proof. exact: premises_example. Qed.
 
 End C15_density.
 
+(* ================================================================== *)
+(* The EXECUTED model is the theorem-level model (C15_Transport.v): the list instance
+   that is extracted and run (ListOps.v: lists of rows, Gauss-Jordan inverse and
+   determinant), over the scalars of any realFieldType, returns on well-formed inputs
+   (repr: m rows of n entries, read as the MathComp matrix) exactly the values of the
+   MathComp instance the theorems above are about.  Every matrix the factorised form
+   inverts -- each diagonal block of R, I + V R^-1 U -- and the assembled S of the direct
+   form is proved invertible from the positive-definiteness premises; nothing about the
+   Gauss-Jordan routine is assumed (ListGauss.v).                                      *)
+Require Import BFL.ListOpsCorrect BFL.C02_Transport BFL.C15_Transport.
+
+Section C15_executed.
+Variable F : realFieldType.
+Variable tr : Transc F.
+Variable sq : forall n, 'M[F]_n -> 'M[F]_n.
+Variable eg : forall n, 'M[F]_n -> 'M[F]_(n,1).
+Let OL := ListMat (FOps tr) (fun _ X => X) (fun _ X => X).    (* = C15_Extract.c15_O (FOps tr) *)
+Let OM := MxMat tr sq eg.
+Notation repr m n l A := (@C02_Transport.repr F m n l A) (only parsing).
+Variables (bs nb k b : nat).
+Hypothesis bs0 : (0 < bs)%N.
+Notation d := (nb * bs)%N.
+Variables (li : lmxF F) (input : 'M[F]_(d,b)) (lm : lmxF F) (mean : 'cV[F]_d).
+Variables (lU : lmxF F) (U : 'M[F]_(d,k)) (lV : lmxF F) (V : 'M[F]_(k,d)).
+Hypothesis ri : repr d b li input.
+Hypothesis rm : repr d 1 lm mean.
+Hypothesis rU : repr d k lU U.
+Hypothesis rV : repr k d lV V.
+Notation blk R := (blk (tr:=tr) (sq:=sq) (eg:=eg) R).
+
+(* factorised log-density and density, any width rc of R: whole result lists *)
+Theorem C15_executed_uvr_is_theorem_model rc lR (R : 'M[F]_(bs,rc)) :
+  repr bs rc lR R ->
+  (forall t, (t < nb)%N -> spd (blk (R : M OM bs rc) t)) ->
+  spd (assembled_S (O:=OM) U V (R : M OM bs rc) : 'M[F]_d) ->
+  @log_density_uvr OL d b k bs rc li lm lU lV lR = @log_density_uvr OM d b k bs rc input mean U V R /\
+  @density_uvr OL d b k bs rc li lm lU lV lR = @density_uvr OM d b k bs rc input mean U V R.
+Proof. move=> rR sB sS; exact: uvr_executed_is_model. Qed.
+
+(* R in full: all diagonal blocks side by side (bs x nb*bs) *)
+Theorem C15_executed_uvr_full_R_is_theorem_model lR (R : 'M[F]_(bs,d)) :
+  repr bs d lR R ->
+  (forall t, (t < nb)%N -> spd (uvr_R_block (O:=OM) (R : M OM bs d) t : 'M[F]_bs)) ->
+  spd (assembled_S (O:=OM) U V (R : M OM bs d) : 'M[F]_d) ->
+  @log_density_uvr OL d b k bs d li lm lU lV lR = @log_density_uvr OM d b k bs d input mean U V R /\
+  @density_uvr OL d b k bs d li lm lU lV lR = @density_uvr OM d b k bs d input mean U V R.
+Proof. move=> rR sB sS; exact: uvr_executed_is_model_full_R. Qed.
+
+(* R as one block shared by all diagonal positions (bs x bs) *)
+Theorem C15_executed_uvr_shared_R_is_theorem_model lR (R : 'M[F]_bs) :
+  repr bs bs lR R -> spd R ->
+  spd (assembled_S (O:=OM) U V (R : M OM bs bs) : 'M[F]_d) ->
+  @log_density_uvr OL d b k bs bs li lm lU lV lR = @log_density_uvr OM d b k bs bs input mean U V R /\
+  @density_uvr OL d b k bs bs li lm lU lV lR = @density_uvr OM d b k bs bs input mean U V R.
+Proof. move=> rR sR sS; exact: uvr_executed_is_model_shared_R. Qed.
+
+(* V = U^T: positive definite blocks are the only premise (S is then SPD, derived) *)
+Theorem C15_executed_uvr_sym_factor_is_theorem_model rc lR (R : 'M[F]_(bs,rc)) :
+  repr bs rc lR R ->
+  (forall t, (t < nb)%N -> spd (blk (R : M OM bs rc) t)) ->
+  @log_density_uvr OL d b k bs rc li lm lU (@mtr OL d k lU) lR
+  = @log_density_uvr OM d b k bs rc input mean U (@mtr OM d k U) R /\
+  @density_uvr OL d b k bs rc li lm lU (@mtr OL d k lU) lR
+  = @density_uvr OM d b k bs rc input mean U (@mtr OM d k U) R.
+Proof. move=> rR sB; exact: uvr_executed_is_model_sym_factor. Qed.
+
+(* end to end: the executed factorised log-density, and the executed direct one applied to the
+   executed assembly of S, are the theorem-level direct log-density of S = U V + blockdiag(R)
+   (C15_logdensity_def: -1/2 (d ln 2pi + ln det S + delta^T S^-1 delta)), per evaluation point *)
+Theorem C15_executed_uvr_is_direct_definition rc lR (R : 'M[F]_(bs,rc)) i :
+  repr bs rc lR R ->
+  (forall t, (t < nb)%N -> spd (blk (R : M OM bs rc) t)) ->
+  spd (assembled_S (O:=OM) U V (R : M OM bs rc) : 'M[F]_d) ->
+  (i < b)%N ->
+  List.nth i (@log_density_uvr OL d b k bs rc li lm lU lV lR) 0 =
+  @log_density OM d (@mcol OM d b i input) mean (@assembled_S OM d k bs rc U V R) /\
+  List.nth i (@log_density_mat OL d b li lm (@assembled_S OL d k bs rc lU lV lR)) 0 =
+  @log_density OM d (@mcol OM d b i input) mean (@assembled_S OM d k bs rc U V R).
+Proof. move=> rR sB sS ib; exact: uvr_executed_is_direct_definition. Qed.
+
+(* the direct forms on a batch, any SPD covariance *)
+Theorem C15_executed_direct_is_theorem_model lc (cov : 'M[F]_d) :
+  repr d d lc cov -> spd cov ->
+  @log_density_mat OL d b li lm lc = @log_density_mat OM d b input mean cov /\
+  @density_mat OL d b li lm lc = @density_mat OM d b input mean cov.
+Proof. move=> rc sc; exact: direct_executed_is_model. Qed.
+
+End C15_executed.
+
+(* non-vacuity of the premises above, in every shape: identity block, U = V = 0 *)
+Example C15_executed_premises_satisfiable (F : realFieldType) (tr : Transc F)
+        (sq : forall n, 'M[F]_n -> 'M[F]_n) (eg : forall n, 'M[F]_n -> 'M[F]_(n,1)) bs nb k (bs0 : (0 < bs)%N) :
+  let OL := ListMat (FOps tr) (fun _ X => X) (fun _ X => X) in
+  let OM := MxMat tr sq eg in
+  [/\ @C02_Transport.repr F bs bs (@mid OL bs) (1%:M : 'M[F]_bs),
+      @C02_Transport.repr F (nb * bs) k (@mzero OL (nb * bs) k) (0 : 'M[F]_(nb * bs, k)),
+      spd (1%:M : 'M[F]_bs) &
+      spd (@assembled_S OM (nb * bs) k bs bs (0 : 'M[F]_(nb * bs, k)) (0 : 'M[F]_(k, nb * bs)) (1%:M : 'M[F]_bs) : 'M[F]_(nb * bs))].
+Proof. exact: uvr_transport_premises_satisfiable. Qed.
+
 (* the executable instance of the same model over exact rationals (ln, exp are
    the identity there, pi = 3: only congruence matters): factorised = direct on
    the assembled S, with two different 2x2 blocks, V <> U^T, a batch of two points *)
@@ -339,3 +439,9 @@ Print Assumptions C15_density_uvr_exp.
 Print Assumptions C15_density_exp.
 Print Assumptions C15_batch_lengths.
 Print Assumptions C15_logdensity_def.
+Print Assumptions C15_executed_uvr_is_theorem_model.
+Print Assumptions C15_executed_uvr_full_R_is_theorem_model.
+Print Assumptions C15_executed_uvr_shared_R_is_theorem_model.
+Print Assumptions C15_executed_uvr_sym_factor_is_theorem_model.
+Print Assumptions C15_executed_uvr_is_direct_definition.
+Print Assumptions C15_executed_direct_is_theorem_model.
